@@ -371,8 +371,8 @@ def part_b(ctx, graphs):
                     if e:
                         viol(f'{nm}_aggregation({kw}): {e}', routine=nm, W=W.tolist(), **kw)
                 except ValueError as ex:
-                    if nm == 'balanced_lloyd' and 'disconnected' in str(ex):
-                        ctx.feat('balanced_lloyd_rejects_disconnected_graph')   # explicit input validation, not a violation
+                    if nm == 'balanced_lloyd' and ('disconnected' in str(ex) or 'maxsize' in str(ex)):
+                        ctx.feat('balanced_lloyd_rejects_input')   # explicit ValueError refusal (disconnected graph / maxsize too small), not a wrong partition
                     else:
                         viol(f'{nm}_aggregation({kw}) raised {type(ex).__name__}: {ex}', routine=nm, W=W.tolist(), **kw)
                 except Exception as ex:
